@@ -38,6 +38,13 @@ func doCall(c *go9p.Clnt, sp callSpec) *callRes {
 		r.data, r.err = c.Read(f, uint64(sp.Fid%7), 16+sp.Fid%5)
 		r.raw = r.data
 		r.data = append([]byte{}, r.data...)
+	case "readn":
+		// a helper layered on the raw call: three Treads of at most an iounit each
+		f.Iounit = 16
+		buf := make([]byte, 40)
+		var n int
+		n, r.err = (&go9p.File{Fid: f}).Readn(buf, uint64(sp.Fid%7))
+		r.data, r.n = buf[:n], n
 	case "stat":
 		var d *go9p.Dir
 		d, r.err = c.Stat(f)
@@ -85,6 +92,20 @@ func (r *callRes) verify(kind string, dotu bool, tagOf func(fid uint32) uint16) 
 		return fmt.Sprintf("unexpected error %v", r.err)
 	}
 	switch sp.Kind {
+	case "readn":
+		var want []byte
+		for off, left := uint64(sp.Fid%7), 40; left > 0; {
+			n := 16
+			if n > left {
+				n = left
+			}
+			want = append(want, peerReadData(sp.Fid, off, uint32(n))...)
+			off += uint64(n)
+			left -= n
+		}
+		if !bytes.Equal(r.data, want) {
+			return fmt.Sprintf("Readn returned %d bytes %x without an error, the three replies it needs carry %d bytes %x", len(r.data), r.data, len(want), want)
+		}
 	case "read":
 		if want := peerReadData(sp.Fid, uint64(sp.Fid%7), 16+sp.Fid%5); !bytes.Equal(r.data, want) {
 			return fmt.Sprintf("read returned %x, its own reply carries %x", r.data, want)
@@ -203,6 +224,74 @@ func c09Scenario(p c09Params) Scenario {
 	return vsScenario(&VsSpec{Name: p.name(), Body: body, Check: check, P: p.P, Delay: true, Sample: func() any {
 		return map[string]any{"requests_seen_by_peer": fmt.Sprint(peer.Seen)}
 	}})
+}
+
+// c09TwoClients: a process may hold several clients. An earlier client (used, then
+// left idle or unmounted) must not influence a later one: tags outstanding on the
+// later connection stay pairwise distinct and every call gets its own reply.
+func c09TwoClients(unmountFirst, dotu bool, P int) Scenario {
+	var peer2 *Peer
+	var res2 []*callRes
+	var first string
+	name := fmt.Sprintf("two-clients-in-one-process first-unmounted=%v dotu=%v", unmountFirst, dotu)
+	body := func() {
+		first = ""
+		c1, peer1 := newClientPair(8192, dotu)
+		// fewer calls at once on the first client than on the second: whatever the first
+		// left behind cannot cover the second's needs, fresh and inherited resources mix
+		peer1.Batch = 2
+		peer1.BatchOnce = true
+		r1 := make([]*callRes, 2)
+		for i := 0; i < 2; i++ {
+			i := i
+			vs.Go("caller1", func() { r1[i] = doCall(c1, callSpec{[]string{"read", "stat", "write"}[i], uint32(10 + i)}) })
+		}
+		vs.Idle()
+		for i, r := range r1 {
+			if r == nil {
+				first = fmt.Sprintf("call %d on the first client never returned", i)
+			} else if msg := r.verify("ok", dotu, nil); msg != "" {
+				first = fmt.Sprintf("call %d on the first client: %s", i, msg)
+			}
+		}
+		if unmountFirst {
+			c1.Unmount()
+			vs.Idle()
+		}
+		// the second client of the process (no reset of anything in between)
+		ce, se := vs.Pipe("clnt2", "peer2")
+		peer2 = NewPeer(se, dotu)
+		peer2.Batch = 4
+		peer2.BatchOnce = true
+		vs.Go("peer2", peer2.Serve)
+		c2 := go9p.NewClnt(ce, 8192, dotu)
+		res2 = make([]*callRes, 4)
+		vs.Window(true)
+		for i := 0; i < 4; i++ {
+			i := i
+			vs.Go("caller2", func() { res2[i] = doCall(c2, callSpec{[]string{"stat", "read", "walk", "read"}[i], uint32(40 + i)}) })
+		}
+		vs.Idle()
+		vs.Window(false)
+	}
+	check := stdCheck("C09", func(x *vs.Exec) *Viol {
+		if first != "" {
+			return &Viol{Sig: "C09/harness/" + sigWords(first), Msg: first}
+		}
+		if peer2.Dup != "" {
+			return &Viol{Sig: "C09/tag-reused-while-outstanding/second-client", Msg: "on the second client of the process: " + peer2.Dup}
+		}
+		for i, r := range res2 {
+			if r == nil || !r.done {
+				return &Viol{Sig: "C09/call-never-returned/second-client", Msg: fmt.Sprintf("call %d on the second client never returned (parked %v)", i, x.Parked)}
+			}
+			if msg := r.verify("ok", dotu, nil); msg != "" {
+				return &Viol{Sig: "C09/" + sigWords(msg) + "/second-client", Msg: fmt.Sprintf("call %d (%s fid %d) on the second client of the process: %s", i, r.spec.Kind, r.spec.Fid, msg)}
+			}
+		}
+		return nil
+	}, nil)
+	return vsScenario(&VsSpec{Name: name, Body: body, Check: check, P: P, Delay: true})
 }
 
 // pipelined Tag interface: requests sharing a tag complete in the order issued
@@ -380,6 +469,7 @@ func c09Scenarios(tier string) []Scenario {
 			}
 		}
 	}
+	out = append(out, c09TwoClients(false, true, 1), c09TwoClients(true, false, 1))
 	// two calls per caller (request slots and Fcalls recycled between calls)
 	out = append(out, c09Scenario(c09Params{Calls: [][]callSpec{{{"read", 10}, {"stat", 11}}, {{"write", 20}, {"read", 21}}}, Kinds: []string{"ok", "error", "ok", "ok"}, Order: []int{1, 0}, Dotu: true, P: P}))
 	out = append(out, c09Scenario(c09Params{Calls: [][]callSpec{{{"read", 10}, {"read", 11}}, {{"read", 20}}}, Kinds: nil, Order: []int{0, 1}, OneWrite: true, P: P}))
